@@ -22,7 +22,9 @@ RULE = (
     "each field kind (payload re-shaped so the record stays well-formed; inserted before or after the genuine "
     "occurrence), (d) inserted field-number-0 and wire-type-6/7 tags, (e) group start/end markers around known and "
     "unknown field numbers with known field numbers inside, (e2) a well-formed LEN record whose sub-message / packed "
-    "payload is cut in the middle of an inner record / element; plus (f) Hypothesis random byte strings. Oracle: decoding "
+    "payload is cut in the middle of an inner record / element; plus (f) Hypothesis random byte strings and (thorough "
+    "tier) an atheris / libFuzzer coverage-guided campaign per shard on Message.parse (empty and seeded corpus), the "
+    "oracle inside the target. Oracle: decoding "
     "terminates and either raises or returns a message whose every field passes a type walker against its declared "
     "Python type and which bytes() encodes again; must raise: a proper prefix cutting a top-level record in the "
     "middle (also inside a sub-message or packed payload), wire types 6/7, field number 0; a wire-type mismatch (only pairs the reference itself keeps as unknown "
@@ -407,7 +409,52 @@ def targets(ctx):
 
     rnd = st.tuples(st.sampled_from(NAMES), st.one_of(st.binary(max_size=24), st.binary(max_size=200))).map(lambda t: {"msg": t[0], "b": t[1]})
 
+    # ---- coverage-guided campaign (thorough tier): atheris/libFuzzer on Message.parse with the oracle in the target
+    def fuzz_cases():
+        if not ctx.thorough:
+            return
+        from .. import fuzz
+
+        if not fuzz.available():
+            ctx.extra["atheris"] = "not installed: campaign skipped (inconclusive)"
+            return
+        for corpus_kind in ("empty", "seeded"):
+            yield {"fuzz": "parse", "corpus": corpus_kind, "runs": 150000, "seed": ctx.seed * 100 + ctx.shard}
+
+    def fuzz_ev(case):
+        from .. import fuzz
+
+        if "crash" in case:  # replay of one crash input
+            data = case["crash"]
+            name = fuzz_names[data[0] % len(fuzz_names)] if data else "Leaf"
+            return random_ev({"msg": name, "b": data[1:]})
+        seeds = []
+        if case["corpus"] == "seeded":
+            for i, name in enumerate(fuzz_names):
+                mi = schema.msg(f"ks.{name}")
+                for tree in ({}, {f.name: (1 if f.type in ("int32", "int64", "uint32", "uint64", "sint32", "sint64", "fixed32", "fixed64", "sfixed32", "sfixed64", "enum") else None) for f in mi.fields[:3]}):
+                    tree = {k: v for k, v in tree.items() if v is not None}
+                    try:
+                        seeds.append(bytes([i]) + to_ref(schema, c.ref, mi.full_name, tree).SerializeToString())
+                    except Exception:  # noqa: BLE001
+                        pass
+        execs, crashes, log = fuzz.run_campaign("fuzz_parse.py", case["runs"], case["seed"], seeds, tag=f"parse_{case['corpus']}_{ctx.shard}")
+        fails = []
+        for data in crashes[:5]:
+            name = fuzz_names[data[0] % len(fuzz_names)] if data else "Leaf"
+            sub = random_ev({"msg": name, "b": data[1:]})
+            for f in sub.failures:
+                f.case = {"crash": data}
+                fails.append(f)
+            if not sub.failures:
+                fails.append(Failure("fuzz_target_oracle", "fuzz|target_oracle_violation", f"input={data.hex()[:200]} log={log[-300:]}", case={"crash": data}))
+        ctx.extra.setdefault("fuzz_campaigns", {})[f"{case['corpus']}[{ctx.shard}]"] = {"executions": execs, "crashes": len(crashes)}
+        return Eval(fails, weight=max(1, execs), nontrivial_count=execs, labels=[f"fuzz:{case['corpus']}"])
+
+    fuzz_names = ["Scalars", "Optionals", "Repeats", "Maps", "Oneofs", "Wrappers", "Times", "Tags", "Rec", "Leaf", "Mixed"]
+
     return [
+        Target("atheris_parse_campaign", fuzz_ev, cases=fuzz_cases, exhaustive=False, shard_cases=False, quick=10**9, thorough=10**9, time_thorough=3000),
         Target("truncation_all_cuts", trunc_ev, strategy=valued(), quick=100, thorough=2000, time_quick=60),
         Target("structured_faults", fault_ev, strategy=faulted(), quick=700, thorough=8000, time_quick=60),
         Target("inner_truncation", fault_ev, strategy=inner_cases(), quick=200, thorough=3000, time_quick=40),
